@@ -191,18 +191,16 @@ def convert(deck_text, args=()):
 
 
 def observed(conv):
-    '''What the run left behind: (exception class or '', lines after the //
-    header or None).'''
-    lines = None
+    '''What the run left behind: (exception class or '', text after the //
+    header as one string, or None).'''
+    text = None
     if conv.text is not None:
         raw = conv.text.split('\n')
         k = 0
         while k < len(raw) and raw[k].startswith('//'):
             k += 1
-        lines = raw[k:]
-        if lines and lines[-1] == '':
-            lines = lines[:-1]
-    return (conv.exc or ''), lines
+        text = '\n'.join(raw[k:])
+    return (conv.exc or ''), text
 
 
 # ---- rendering to Coq -------------------------------------------------------
@@ -264,5 +262,5 @@ def coq_input(cap, args=()):
 
 
 def coq_observed(obs):
-    exc, lines = obs
-    return cpair(cstr(exc), copt(lines, lambda ls: clist(cstr(x) for x in ls)))
+    exc, text = obs
+    return cpair(cstr(exc), copt(text, cstr))
